@@ -202,7 +202,8 @@ Definition eff (c : pcfg) (st : pg) : pcfg := set_lang c (p_lang st).
 
 Inductive pop : Set :=
 | PPut (k v : bytes) | PGet (k : bytes) | PStart | PStop | PAbort | PClose
-| PDump (k : bytes).   (* Dump(k), Dumper.Next until nil, Dumper.Close *)
+| PDump (k : bytes)    (* Dump(k), Dumper.Next until nil, Dumper.Close *)
+| PConnect.            (* Connect on the already connected store: "consecutive calls should be ignored" *)
 
 Inductive pres : Set := POk | PVal (v : bytes) | PErr (e : err) | PPanic
 | PRows (rows : kv).   (* what a dump delivered: decoded key, value *)
@@ -434,6 +435,7 @@ Definition pg_step (c : pcfg) (st : pg) (o : pop) : pg * pres :=
   | PAbort => (pg_abort st, POk)
   | PClose => pg_close st
   | PDump k => pg_dump c st k
+  | PConnect => (st, POk)   (* pdb.conn != nil: warning, return nil; no driver call, no oracle bit *)
   end.
 
 (* ---- observable behaviour of a history -------------------------------------------------- *)
@@ -578,6 +580,7 @@ Definition mon_next (c : pcfg) (m : mstate) (o : pop) (ob : pobs) : umode * kv *
   | PClose =>
     let ae := end_expl m ob (pres_eqb r POk) in (MClosed, fst ae, m_started m, snd ae)
   | PDump _ => (m_mode m, m_abs m, m_started m, true)   (* a transaction of its own: pdb.tx untouched *)
+  | PConnect => (m_mode m, m_abs m, m_started m, true)  (* nothing may change *)
   end.
 
 (* 3. reads return exactly the acknowledged writes (not judged when a fault fired inside the Get,
